@@ -1009,6 +1009,27 @@ fn regroup_grid() -> Vec<Case> {
             }
         }
     }
+    // a key that ends up in the key table but in no role (added without --role, or retired from its
+    // only role), removed after the file was signed: the key table is signed content
+    for way in 0..=ROLES.len() {
+        for then_role in [None, Some(ROLES[0]), Some(ROLES[2])] {
+            let mut steps = vec![Cmd::Init { version: None }, Cmd::AddKey { keys: vec![P0], roles: 15 }];
+            if way == 0 {
+                steps.push(Cmd::AddKey { keys: vec![P1], roles: 0 });
+            } else {
+                let r = ROLES[way - 1];
+                steps.push(Cmd::AddKey { keys: vec![P1], roles: r.bit() });
+                steps.push(Cmd::RemoveKey { key: P1, role: Some(r) });
+            }
+            for r in ROLES {
+                steps.push(Cmd::SetThreshold { role: r, threshold: 1 });
+            }
+            steps.push(Cmd::Sign { keys: vec![P0], ignore_threshold: false, cross_sign: None });
+            steps.push(Cmd::RemoveKey { key: P1, role: then_role });
+            steps.push(Cmd::Sign { keys: vec![P0], ignore_threshold: false, cross_sign: None });
+            v.push(Case { palette, steps });
+        }
+    }
     v
 }
 
@@ -1040,7 +1061,7 @@ pub fn check(ctx: &Ctx) -> Vec<PartReport> {
         ctx,
         PartSpec {
             name: "regroup-grid",
-            rule: "EXHAUSTIVE over the scripts `init; add-key K0 (roles a); add-key K1 (all roles); set-threshold x4 = 1; sign -k K0 K1; add-key Kx (roles b); sign -k K1` with a in {root, root+snapshot, root+timestamp}, b every non-empty role set, x in {0,1} (90 scripts): a key already in the key table is attached to further roles after the file was signed. Same oracle after every step. Non-trivial: every script; distinct = sequence of (subcommand, exit status, flags, signature count)",
+            rule: "EXHAUSTIVE over the scripts `init; add-key K0 (roles a); add-key K1 (all roles); set-threshold x4 = 1; sign -k K0 K1; add-key Kx (roles b); sign -k K1` with a in {root, root+snapshot, root+timestamp}, b every non-empty role set, x in {0,1} (90 scripts): a key already in the key table is attached to further roles after the file was signed; plus 15 scripts in which a key that is in the key table but in no role (added without --role, or retired from its only role) is removed after signing. Same oracle after every step. Non-trivial: every script; distinct = sequence of (subcommand, exit status, flags, signature count)",
             mode: Mode::Enumerate { cases: regroup_grid(), complete: true },
             prop: Box::new(move |c: &Case| budgeted(c, known)),
             require: vec![],
